@@ -90,12 +90,13 @@ def oracle(ctx, st, ob, with_q):
         return out
 
     def is_bonded_image(mi, n, k):
+        best = None
         for i, p in image_atoms(mi, n, k):
             for b in atoms:
                 d = sc.glen(G, [p[0] - b.x, p[1] - b.y, p[2] - b.z])
-                if d > 0.2 and bonded(atoms[i], b, d):
-                    return True, d
-        return False, None
+                if d > 0.2 and bonded(atoms[i], b, d) and (best is None or d < best):
+                    best = d
+        return best is not None, best
     for (mi, n, k) in images:
         ev += 1
         ok, _ = is_bonded_image(mi, n, k)
@@ -120,11 +121,17 @@ def oracle(ctx, st, ob, with_q):
                 if missing:
                     common.add_violation(ctx, 'a fragment image directly bonded to the asymmetric unit is missing from the grown structure',
                                          dict(case, molecule=mi, operator=n, shift=list(k), bond_length=d), 'present', {'missing_atoms': missing[:4]},
-                                         cls=classify_missing(ctx, ob, G, atoms, ops, mi, n, k))
+                                         cls=classify_missing(ctx, ob, G, atoms, ops, mi, n, k, d))
     return ev
 
 
-def classify_missing(ctx, ob, G, atoms, ops, mi, n, k):
+def classify_missing(ctx, ob, G, atoms, ops, mi, n, k, d):
+    """known finding shared with C13: a contact at or beyond half the smallest interplanar spacing (or beyond the
+    5.3 A cut-off of the SDM) is outside what the component-wise wrap can see"""
+    from props.c12 import inv_diag
+    spacing = min(1.0 / math.sqrt(g) for g in inv_diag(G))
+    if d is not None and (d >= spacing / 2 - 1e-3 or d >= 5.3 - 1e-3):
+        return 'long_contact_beyond_half_interplanar_spacing'
     return None
 
 
